@@ -144,6 +144,59 @@ func checkC10(p *Program, r *Report) {
 		}
 	}
 
+	// ---- C10.inputs (round 5, C10-agent5-m2): every input's spent outpoint is tested in the iteration that looks at that
+	// input — no path through the loop body reaches the next iteration without the test (an unparsable signature
+	// script used to `continue` past it)
+	if ihdr, _, islice := rangeLoopOver(matcher, "TxIn"); ihdr != nil {
+		var testBlocks []*ssa.BasicBlock
+		for _, b := range matcher.Blocks {
+			for _, in := range b.Instrs {
+				c, ok := in.(*ssa.Call)
+				if !ok || c.Call.StaticCallee() == nil || !p.InRepo(c.Call.StaticCallee()) {
+					continue
+				}
+				for _, a := range c.Call.Args {
+					fa, ok := a.(*ssa.FieldAddr)
+					if !ok || fieldOfAddr(fa).Name() != "PreviousOutPoint" {
+						continue
+					}
+					// the element of the ranged slice
+					if ld, ok := fa.X.(*ssa.UnOp); ok {
+						if ia, ok := ld.X.(*ssa.IndexAddr); ok && ia.X == islice {
+							testBlocks = append(testBlocks, b)
+						}
+					}
+				}
+			}
+		}
+		if len(testBlocks) == 0 {
+			r.Unresolved("C10.inputs", "outpoint test on &txin.PreviousOutPoint in the input loop of "+mname)
+		} else {
+			avoid := map[*ssa.BasicBlock]bool{}
+			for _, b := range testBlocks {
+				avoid[b] = true
+			}
+			// can the header be reached again from the loop body without passing a test block?
+			skipped := false
+			for _, s := range ihdr.Succs {
+				if avoid[s] {
+					continue
+				}
+				reach := reachableFrom(s, avoid)
+				if reach[ihdr] && s != ihdr {
+					// s must be inside the loop: the header is reachable from it
+					skipped = true
+				}
+			}
+			how := "every path from the loop header back to it passes the outpoint test (or leaves the function)"
+			if skipped {
+				how = "some path through the loop body reaches the next input without testing this input's outpoint"
+			}
+			r.Add("C10.inputs", mname, "each input's spent outpoint is tested against the filter in its own iteration", p.InstrPos(ihdr.Instrs[0]), !skipped, how)
+		}
+	}
+	r.Floor("C10.inputs", 1)
+
 	// ---- C10.outpoint: the update helper call inside the loop
 	var helper *ssa.Function
 	var hcall *ssa.Call
